@@ -87,6 +87,34 @@ theorem localInsert_one_event (s : State) (e : Entry) :
   | notInserted => simp
   | inserted n => simp [emit]
 
+
+/-- through the open replica a local write needs the write capability; when it has it, it behaves
+as `localInsert`; otherwise nothing changes and nothing is announced -/
+theorem localInsertCap_spec (s : State) (e : Entry) :
+    (∀ raw, Tables.nsGet s.t e.ns = some (1, raw) → localInsertCap s e = localInsert s e) ∧
+    ((∀ raw, Tables.nsGet s.t e.ns ≠ some (1, raw)) → (localInsertCap s e).1 = s) := by
+  unfold localInsertCap
+  constructor
+  · intro raw h; simp only [h]
+  · intro h
+    cases hg : Tables.nsGet s.t e.ns with
+    | none => rfl
+    | some v =>
+      obtain ⟨k, raw⟩ := v
+      by_cases hk : k = 1
+      · subst hk; exact absurd hg (h raw)
+      · match k, hk with
+        | 0, _ => rfl
+        | 1, hk => exact absurd rfl hk
+        | (n + 2), _ => rfl
+
+/-- **importing a capability while the document is open leaves every subscriber subscribed**, with
+its inbox and the reference log untouched -/
+theorem importCap_keeps_subscribers (s : State) (ns : Bytes) (kind : Nat) (raw : Bytes) :
+    (importCap s ns kind raw).subs = s.subs ∧ (importCap s ns kind raw).closed = s.closed ∧
+    (importCap s ns kind raw).inbox = s.inbox ∧ (importCap s ns kind raw).applied = s.applied := by
+  unfold importCap; exact ⟨rfl, rfl, rfl, rfl⟩
+
 /-- **One event per applied entry (remote path)**, marked remote, with the providing peer, the
 content status it reported, and the download flag the document's policy gives for the key; a
 rejected (invalid or superseded) entry produces no event and changes nothing. -/
